@@ -355,7 +355,7 @@ fn cmd_run(args: &[String]) -> i32 {
         let path = run::write_replay(&replay_dir, &o, *idx, *rseed, &mcfg, &mops, &mf, true, ops.len(), "");
         // the minimised file must reproduce in a fresh process
         let exe = std::env::current_exe().unwrap();
-        let res = std::process::Command::new(exe).arg("replay").arg(&path).output();
+        let res = output_with_timeout(std::process::Command::new(exe).arg("replay").arg(&path), 180);
         match res {
             Ok(r) if r.status.code() == Some(1) => {
                 let so = String::from_utf8_lossy(&r.stdout);
@@ -526,6 +526,23 @@ fn cmd_batchreplay(args: &[String]) -> i32 {
             println!("replay: the last of the {} runs does not violate {}", runs.len(), prop);
             0
         }
+    }
+}
+
+/// `Command::output` with a wall-clock limit (a replay of a defective library may not return).
+fn output_with_timeout(cmd: &mut std::process::Command, secs: u64) -> std::io::Result<std::process::Output> {
+    use std::process::Stdio;
+    let mut child = cmd.stdout(Stdio::piped()).stderr(Stdio::piped()).spawn()?;
+    let t0 = std::time::Instant::now();
+    loop {
+        if child.try_wait()?.is_some() {
+            return child.wait_with_output();
+        }
+        if t0.elapsed() > Duration::from_secs(secs) {
+            let _ = child.kill();
+            return child.wait_with_output();
+        }
+        std::thread::sleep(Duration::from_millis(20));
     }
 }
 
